@@ -1,0 +1,16 @@
+//go:build verif
+// +build verif
+
+package destination
+
+// VerifKeepSafeLens returns the sizes of the two generations of the connection's
+// keepSafe buffer (old, recent). Verification builds only; read-only.
+func (c *Conn) VerifKeepSafeLens() (old, recent int) {
+	if c == nil || c.keepSafe == nil {
+		return 0, 0
+	}
+	c.keepSafe.Lock()
+	old, recent = len(c.keepSafe.safeOld), len(c.keepSafe.safeRecent)
+	c.keepSafe.Unlock()
+	return
+}
